@@ -240,14 +240,16 @@ __CPROVER_decreases(out->curveoidlen - i)
  * makes SubpacketParse terminate. */
 __CPROVER_requires(TVEC_OK(in) && CTX_OK(out))
 /* type invariant of a packet context: a non-zero length field owns a heap buffer of that length */
-__CPROVER_requires(out->embeddedsignaturelen <= 2147483645UL && out->attestedcertificationslen <= 2147483645UL)   /* TMCG_OPENPGP_MAX_ALLOC */
-__CPROVER_requires(out->embeddedsignaturelen == 0 || __CPROVER_is_fresh(out->embeddedsignature, out->embeddedsignaturelen))
-__CPROVER_requires(out->attestedcertificationslen == 0 || __CPROVER_is_fresh(out->attestedcertifications, out->attestedcertificationslen))
+__CPROVER_requires(CTX_BUFS_FRESH(out))
 __CPROVER_assigns(*out, in->size, tmcg_openpgp_mem_alloc, vec_u8__cell)
 __CPROVER_frees(out->embeddedsignaturelen > 0: out->embeddedsignature; out->attestedcertificationslen > 0: out->attestedcertifications)
 __CPROVER_ensures(in->size <= __CPROVER_old(in->size))
 __CPROVER_ensures(__CPROVER_return_value != 0 ==> in->size + 2 <= __CPROVER_old(in->size))
 __CPROVER_ensures(__CPROVER_return_value == 0 ==> in->size == __CPROVER_old(in->size))
+/* what SubpacketParse relies on: the length fields describe what was stored */
+__CPROVER_ensures(__CPROVER_return_value != 0 ==> ((out->notation_name_length <= sizeof(out->notation_name) || out->notation_name_length == __CPROVER_old(out->notation_name_length)) &&
+   (out->notation_value_length <= sizeof(out->notation_value) || out->notation_value_length == __CPROVER_old(out->notation_value_length))))
+__CPROVER_ensures(CTX_BUFS_RW(out))
 //@ loop 1
 __CPROVER_assigns(i, vec_u8__cell, __CPROVER_object_upto(out->trustregex, sizeof(out->trustregex)))
 __CPROVER_loop_invariant(i <= pkt.size)
@@ -360,55 +362,55 @@ __CPROVER_loop_invariant(i <= out->curveoidlen)
 __CPROVER_decreases(out->curveoidlen - i)
 //@ loop 3
 __CPROVER_assigns(j, mlen, mpis.size, vec_u8__cell, vec_mpi__cell)
-__CPROVER_loop_invariant(j <= qs && qual->size == qs)
+__CPROVER_loop_invariant(mpis.size <= TCAP && j <= qs && qual->size == qs)
 __CPROVER_decreases(qs - j)
 //@ loop 4
 __CPROVER_assigns(j, mlen, mpis.size, vec_u8__cell, vec_mpi__cell)
-__CPROVER_loop_invariant(j <= xqs && x_rvss_qual->size == xqs)
+__CPROVER_loop_invariant(mpis.size <= TCAP && j <= xqs && x_rvss_qual->size == xqs)
 __CPROVER_decreases(xqs - j)
 //@ loop 5
 __CPROVER_assigns(j, mlen, mpis.size, vec_u8__cell, capl->size)
-__CPROVER_loop_invariant(j <= n && capl->size == j)
+__CPROVER_loop_invariant(mpis.size <= TCAP && j <= n && capl->size == j)
 __CPROVER_decreases(n - j)
 //@ loop 6
 __CPROVER_assigns(j, mlen, mpis.size, vec_u8__cell, vec_mpi__cell, __CPROVER_object_whole(c_ik->data))
-__CPROVER_loop_invariant(j <= n && c_ik->size == n)
+__CPROVER_loop_invariant(mpis.size <= TCAP && j <= n && c_ik->size == n)
 __CPROVER_decreases(n - j)
 //@ loop 7
 __CPROVER_assigns(k, mlen, mpis.size, vec_u8__cell, vec_mpi__cell)
-__CPROVER_loop_invariant(k <= t + 1 && j < n && c_ik->size == n && c_ik->data[j].size == t + 1)
+__CPROVER_loop_invariant(mpis.size <= TCAP && k <= t + 1 && j < n && c_ik->size == n && c_ik->data[j].size == t + 1)
 __CPROVER_decreases(t + 1 - k)
 //@ loop 8
 __CPROVER_assigns(j, mlen, mpis.size, vec_u8__cell, vec_mpi__cell)
-__CPROVER_loop_invariant(j <= qs && qual->size == qs)
+__CPROVER_loop_invariant(mpis.size <= TCAP && j <= qs && qual->size == qs)
 __CPROVER_decreases(qs - j)
 //@ loop 9
 __CPROVER_assigns(j, mlen, mpis.size, vec_u8__cell, capl->size)
-__CPROVER_loop_invariant(j <= qs && capl->size == j)
+__CPROVER_loop_invariant(mpis.size <= TCAP && j <= qs && capl->size == j)
 __CPROVER_decreases(qs - j)
 //@ loop 10
 __CPROVER_assigns(j, mlen, mpis.size, vec_u8__cell, vec_mpi__cell, __CPROVER_object_whole(c_ik->data))
-__CPROVER_loop_invariant(j <= n && c_ik->size == n)
+__CPROVER_loop_invariant(mpis.size <= TCAP && j <= n && c_ik->size == n)
 __CPROVER_decreases(n - j)
 //@ loop 11
 __CPROVER_assigns(k, mlen, mpis.size, vec_u8__cell, vec_mpi__cell)
-__CPROVER_loop_invariant(k <= t + 1 && j < n && c_ik->size == n && c_ik->data[j].size == t + 1)
+__CPROVER_loop_invariant(mpis.size <= TCAP && k <= t + 1 && j < n && c_ik->size == n && c_ik->data[j].size == t + 1)
 __CPROVER_decreases(t + 1 - k)
 //@ loop 12
 __CPROVER_assigns(j, mlen, mpis.size, vec_u8__cell, vec_mpi__cell)
-__CPROVER_loop_invariant(j <= qs && qual->size == qs)
+__CPROVER_loop_invariant(mpis.size <= TCAP && j <= qs && qual->size == qs)
 __CPROVER_decreases(qs - j)
 //@ loop 13
 __CPROVER_assigns(j, mlen, mpis.size, vec_u8__cell, vec_mpi__cell)
-__CPROVER_loop_invariant(j <= n && v_i->size == n)
+__CPROVER_loop_invariant(mpis.size <= TCAP && j <= n && v_i->size == n)
 __CPROVER_decreases(n - j)
 //@ loop 14
 __CPROVER_assigns(j, mlen, mpis.size, vec_u8__cell, vec_mpi__cell, __CPROVER_object_whole(c_ik->data))
-__CPROVER_loop_invariant(j <= n && c_ik->size == n)
+__CPROVER_loop_invariant(mpis.size <= TCAP && j <= n && c_ik->size == n)
 __CPROVER_decreases(n - j)
 //@ loop 15
 __CPROVER_assigns(k, mlen, mpis.size, vec_u8__cell, vec_mpi__cell)
-__CPROVER_loop_invariant(k <= t + 1 && j < n && c_ik->size == n && c_ik->data[j].size == t + 1)
+__CPROVER_loop_invariant(mpis.size <= TCAP && k <= t + 1 && j < n && c_ik->size == n && c_ik->data[j].size == t + 1)
 __CPROVER_decreases(t + 1 - k)
 //@ loop 16
 __CPROVER_assigns(i, vec_u8__cell, smpis.size)
